@@ -438,6 +438,10 @@ func (s *ReceiveStream) handleResetStreamFrame(frame *wire.ResetStreamFrame, now
 	s.mutex.Unlock()
 
 	if completed {
+		// The stream is done (e.g. the read side was cancelled locally, and the RESET_STREAM_AT
+		// made the final size known): return the unread bytes as connection flow control
+		// credit, as handleStreamFrame does. Calling Abandon multiple times is a no-op.
+		s.flowController.Abandon()
 		s.sender.onStreamCompleted(s.streamID)
 	}
 	return err
